@@ -142,6 +142,23 @@ R6 = {
 for _k, _v in R6.items():
     CHECKS[_k]["text"] += " " + _v
 
+R7 = {
+ "C02": "A second file of the directory-level pass; the shared pool of programs is swept in location mode.",
+ "C05": "assign_update_array_value with all ten arithmetic and bitwise operators; multi-part require conditions; 25 idiom contexts per atom.",
+ "C07": "Two and three modifiers per function, look-alike guards that do not mention msg.sender, doubly and triply parenthesised conditions.",
+ "C08": "All eleven assignment operators in the quick tier; constructor bodies after string / abi statements; names crossed with pragma settings.",
+ "C09": "Qualified, starred and multiple using-directives; statement-hole family; revert(\"...\") strings are gray.",
+ "C11": "Report parse-back recognises a section by the first line of its text when the layout interleaves lines of its own; file names are masked outside entries.",
+ "C12": "A total printed more than once is accepted when all copies agree; an empty rendering of an empty category is accepted.",
+ "C13": "All 30 patterns under every listing order of a seven-entry tree with a nested directory and a .t.sol file; repeated-pattern selections; subsets up to 8 in the thorough tier.",
+ "C15": "Binary co-selection pass (alone / one per other category / own full category / all), repeated-pattern selections, related and degenerate neighbour trees, same-named files in sibling directories.",
+ "C16": "Numeral names, an importing file, version-gated patterns in the selection, trees with shared names.",
+ "C18": "Four tree variants (other files / contracts only / a 1.1 MB report / odd file names incl. CRLF) crossed with the histories; an edit that leaves only gas findings; the reference run uses a copy of the whole structure without any earlier report and the same relative spelling of the analysed directory.",
+ "C19": "38 item templates incl. named enum / value type / struct references, natspec items, arithmetic initialisers and prefix increments.",
+}
+for _k, _v in R7.items():
+    CHECKS[_k]["text"] += " " + _v
+
 NOT_YET = "check not built yet in this revision of /verif (see DESIGN.md section 7 for the planned decision procedure)"
 
 def main():
